@@ -45,7 +45,9 @@ class Searches:
         if method is PathSearchMethods.EQUALS:
             if isinstance(typed_haystack, bool) and needle_type is bool:
                 matches = typed_haystack == typed_needle
-            elif isinstance(typed_haystack, int) and needle_type is int:
+            elif (isinstance(typed_haystack, int)
+                  and not isinstance(typed_haystack, bool)
+                  and needle_type is int):
                 matches = typed_haystack == typed_needle
             elif isinstance(typed_haystack, float) and needle_type is float:
                 matches = typed_haystack == typed_needle
